@@ -8,7 +8,7 @@ PID = "C20"
 
 def run(tier, v):
     e = e2ecommon.run_e2e(PID, tier, v)
-    drift = e2ecommon.judge(PID, v, e, {"C20"})
+    drift = e2ecommon.judge(PID, v, e, {"C20"}, also={"C06_payload_not_from_flush", "C06_payload_is_a_delta"})   # "lists exactly the alerts of the batch"
     ok_attempts = sum(1 for l in e["lines"] if '"ev":"attempt"' in l and '"outcome":"ok"' in l)
     if ok_attempts < 50:
         raise vlib.Inconclusive("too few delivered notifications (%d)" % ok_attempts)
